@@ -7,7 +7,7 @@ import sys
 from pathlib import Path
 
 src, prop, caught = Path(sys.argv[1]), sys.argv[2], sys.argv[3]
-dst = Path("/verif/seeded") / src.name
+dst = Path(__file__).resolve().parent.parent / "seeded" / src.name
 dst.mkdir(parents=True, exist_ok=True)
 for f in ("patch.diff", "demo.py"):
     shutil.copy(src / f, dst / f)
